@@ -1,9 +1,265 @@
 import Driver.Util
+import Lattigo.Model.MPShare
 
+/-
+  C14 line protocol.  `v` vector, `iv` signed vector, `M` matrix (rows joined by `;`), `IM` matrix of
+  signed rows.  A ring is `<qs:v> <ps:v> <n>`; a polynomial over it is the matrix of its canonical
+  rows q_0…q_L,p_0…p_K; several polynomials are concatenated row-wise.
+  `G` (gadget share / key) = `<levelQ> <levelP> <base2> <shape:v> <deg+1> <rows:M>` (polys in order i,j,k).
+  `T` (aggregation tree) = postfix, comma separated: `0,1,+,2,+`.
+
+    cpk_share R <a:M> <s:iv> <e:iv>                        → M
+    cpk_key <agg:M> <a:M>                                  → M|M
+    agg <ms:v> T <k> <sh_1:M> … <sh_k:M>                   → M        (component-wise, no validation)
+    evk_share R <skInLvl> <skOutLvl> <sIn:iv> <sOut:iv> <crpShape:v> <crp:M> <e:IM> <lq> <lp> <b2> <shape:v>
+                                                           → err | panic | M
+    evk_agg R G1 G2 G3                                     → err | panic | M
+    evk_aggtree R T <k> G_1 … G_k                          → err | panic | M
+    evk_key R G <crpShape:v> <crp:M> G                     → err | panic | M
+    gal_share R <skLvl> <s:iv> <galEl> <crpShape:v> <crp:M> <e:IM> <lq> <lp> <b2> <shape:v>
+                                                           → err | panic | g M
+    gal_agg R g G g G g G   /  gal_aggtree R T <k> (g G)…  → err | panic | g M
+    gal_key R g G <crpShape:v> <crp:M> g G                 → err | panic | g M
+    rkg_r1 R <b2> <shape:v> <crp:M> <s:iv> <u:iv> <e0:IM> <e1:IM>   → M
+    rkg_r2 R <shape:v> <r1agg:M> <s:iv> <u:iv> <e2:IM>     → M
+    rkg_key R <shape:v> <r1:M> <r2:M>                      → M
+-/
 namespace Driver.C14
-open Driver
+open Driver Lattigo Lattigo.MP
 
-/-- stub: replaced by the property's real handler -/
-def handle (_toks : List String) : String := badOp
+def parseIMat? (s : String) : Option (List (List Int)) :=
+  if s == "-" then some [] else (s.splitOn ";").mapM parseIVec?
+
+def chunk {β : Type} (k : Nat) (l : List β) : List (List β) :=
+  if k = 0 then [] else
+  let rec go (fuel : Nat) (l : List β) (acc : List (List β)) : List (List β) :=
+    match fuel with
+    | 0 => acc.reverse
+    | fuel + 1 => if l.isEmpty then acc.reverse else go fuel (l.drop k) (l.take k :: acc)
+  go (l.length + 1) l []
+
+/-- arrange a flat list along a shape -/
+def unflatten {β : Type} (shape : List Nat) (l : List β) : List (List β) :=
+  (shape.foldl (fun (acc : List (List β) × List β) k => (acc.1 ++ [acc.2.take k], acc.2.drop k)) ([], l)).1
+
+def polysOf (ms : List Nat) (rows : List (List Nat)) : List RPoly :=
+  (chunk ms.length rows).map fun r => ⟨ms, r⟩
+
+def rowsOf (m : List RPoly) : List (List Nat) := m.flatMap (·.c)
+
+def showCube (v : Mat (List RPoly)) : String := showMat (rowsOf (v.flatten.flatten))
+
+def parseTree? (s : String) : Option AggTree :=
+  let step (st : Option (List AggTree)) (tok : String) : Option (List AggTree) := do
+    let st ← st
+    if tok == "+" then
+      match st with
+      | r :: l :: rest => some (AggTree.node l r :: rest)
+      | _ => none
+    else some (AggTree.leaf (← tok.toNat?) :: st)
+  match (s.splitOn ",").foldl step (some []) with
+  | some [t] => some t
+  | _ => none
+
+/-- moduli of a share at its own levels, inside the line's ring -/
+def msAt (qs ps : List Nat) (lq : Nat) (lp : Int) : List Nat :=
+  qs.take (lq + 1) ++ ps.take (lp + 1).toNat
+
+/-- six tokens → gadget share; returns the rest -/
+def parseG? (qs ps : List Nat) : List String → Option (GShare RPoly × List String)
+  | lq :: lp :: b2 :: shape :: k :: rows :: rest => do
+      let lq ← lq.toNat?
+      let lp ← lp.toInt?
+      let b2 ← b2.toNat?
+      let shape ← parseVec? shape
+      let k ← k.toNat?
+      let rows ← parseMat? rows
+      let ms := msAt qs ps lq lp
+      let polys := polysOf ms rows
+      let entries := chunk k polys
+      some (⟨lq, lp, b2, unflatten shape entries⟩, rest)
+  | _ => none
+
+def zeroLike (g : GShare RPoly) : GShare RPoly :=
+  { g with val := g.val.map fun r => r.map fun e => e.map fun p => RPoly.zero p.qs (p.c.headD []).length }
+
+def showRes (r : Res (GShare RPoly)) : String :=
+  match r with
+  | .ok g => showCube g.val
+  | .err => "err"
+  | .panic => "panic"
+
+def showGalRes (r : Res (GalShare RPoly)) : String :=
+  match r with
+  | .ok g => toString g.galEl ++ " " ++ showCube g.sh.val
+  | .err => "err"
+  | .panic => "panic"
+
+def parseGal? (qs ps : List Nat) : List String → Option (GalShare RPoly × List String)
+  | g :: rest => do
+      let g ← g.toNat?
+      let (sh, rest) ← parseG? qs ps rest
+      some (⟨g, sh⟩, rest)
+  | _ => none
+
+def parseMany? {β : Type} (p : List String → Option (β × List String)) : Nat → List String → Option (List β × List String)
+  | 0, rest => some ([], rest)
+  | k + 1, toks => do
+      let (x, rest) ← p toks
+      let (xs, rest) ← parseMany? p k rest
+      some (x :: xs, rest)
+
+def errPolys (ms : List Nat) (shape : List Nat) (e : List (List Int)) : Mat RPoly :=
+  unflatten shape (e.map (RPoly.ofInts ms))
+
+/-- an allocated share: only levels and shape matter -/
+def allocShare (ms : List Nat) (n lq : Nat) (lp : Int) (b2 : Nat) (shape : List Nat) : GShare RPoly :=
+  ⟨lq, lp, b2, shape.map fun k => (List.range k).map fun _ => [RPoly.zero ms n]⟩
+
+def handleOpt (toks : List String) : Option String :=
+  match toks with
+  | ["cpk_share", qs, ps, _n, a, s, e] => do
+      let ms := (← parseVec? qs) ++ (← parseVec? ps)
+      let a : RPoly := ⟨ms, ← parseMat? a⟩
+      let s := RPoly.ofInts ms (← parseIVec? s)
+      let e := RPoly.ofInts ms (← parseIVec? e)
+      some (showMat (cpkShare a s e).c)
+  | ["cpk_key", agg, a] => do
+      let agg ← parseMat? agg
+      let a ← parseMat? a
+      let pk := genPublicKey agg a
+      some (showMat pk.1 ++ "|" ++ showMat pk.2)
+  | "agg" :: ms :: tree :: k :: rest => do
+      let ms ← parseVec? ms
+      let tree ← parseTree? tree
+      let k ← k.toNat?
+      let shs ← rest.mapM parseMat?
+      if shs.length ≠ k ∨ ms.isEmpty then none
+      let polys : List RPoly := shs.map fun rows =>
+        ⟨(List.range rows.length).map fun i => ms[i % ms.length]!, rows⟩
+      if tree.leaves.any (· ≥ k) then none
+      some (showMat (tree.eval (· + ·) (fun i => polys[i]!)).c)
+  | ["evk_share", qs, ps, n, skInLvl, skOutLvl, sIn, sOut, crpShape, crp, e, lq, lp, b2, shape] => do
+      let qs ← parseVec? qs
+      let ps ← parseVec? ps
+      let n ← n.toNat?
+      let ms := qs ++ ps
+      let crpShape ← parseVec? crpShape
+      let crp := unflatten crpShape (polysOf ms (← parseMat? crp))
+      let e := errPolys ms crpShape (← parseIMat? e)
+      let out := allocShare ms n (← lq.toNat?) (← lp.toInt?) (← b2.toNat?) (← parseVec? shape)
+      let w := gadgetWs qs ps n out.base2 crpShape
+      some (showRes (evkGenShare (← skInLvl.toNat?) (← skOutLvl.toNat?)
+        (RPoly.ofInts ms (← parseIVec? sIn)) (RPoly.ofInts ms (← parseIVec? sOut)) crp w e out))
+  | "evk_agg" :: qs :: ps :: _n :: rest => do
+      let qs ← parseVec? qs
+      let ps ← parseVec? ps
+      let (g1, rest) ← parseG? qs ps rest
+      let (g2, rest) ← parseG? qs ps rest
+      let (g3, rest) ← parseG? qs ps rest
+      if !rest.isEmpty then none
+      some (showRes (evkAggregate g1 g2 g3))
+  | "evk_aggtree" :: qs :: ps :: _n :: tree :: k :: rest => do
+      let qs ← parseVec? qs
+      let ps ← parseVec? ps
+      let tree ← parseTree? tree
+      let k ← k.toNat?
+      let (gs, rest) ← parseMany? (parseG? qs ps) k rest
+      if !rest.isEmpty ∨ tree.leaves.any (· ≥ k) ∨ k = 0 then none
+      let d := gs.headD ⟨0, 0, 0, []⟩
+      some (showRes (tree.evalM (fun x y => evkAggregate x y (zeroLike x)) (fun i => gs.getD i d)))
+  | "evk_key" :: qs :: ps :: _n :: rest => do
+      let qs ← parseVec? qs
+      let ps ← parseVec? ps
+      let (sh, rest) ← parseG? qs ps rest
+      match rest with
+      | crpShape :: crp :: rest =>
+        let crpShape ← parseVec? crpShape
+        let crp := unflatten crpShape (polysOf (msAt qs ps sh.levelQ sh.levelP) (← parseMat? crp))
+        let (evk, rest) ← parseG? qs ps rest
+        if !rest.isEmpty then none
+        some (showRes (genEvaluationKey sh crp evk))
+      | _ => none
+  | ["gal_share", qs, ps, n, skLvl, s, galEl, crpShape, crp, e, lq, lp, b2, shape] => do
+      let qs ← parseVec? qs
+      let ps ← parseVec? ps
+      let n ← n.toNat?
+      let ms := qs ++ ps
+      let galEl ← galEl.toNat?
+      let crpShape ← parseVec? crpShape
+      let crp := unflatten crpShape (polysOf ms (← parseMat? crp))
+      let e := errPolys ms crpShape (← parseIMat? e)
+      let out := allocShare ms n (← lq.toNat?) (← lp.toInt?) (← b2.toNat?) (← parseVec? shape)
+      let w := gadgetWs qs ps n out.base2 crpShape
+      let ginv := galInv galEl n
+      some (showGalRes (galGenShare (fun p => RPoly.aut p ginv) (← skLvl.toNat?)
+        (RPoly.ofInts ms (← parseIVec? s)) galEl crp w e ⟨0, out⟩))
+  | "gal_agg" :: qs :: ps :: _n :: rest => do
+      let qs ← parseVec? qs
+      let ps ← parseVec? ps
+      let (g1, rest) ← parseGal? qs ps rest
+      let (g2, rest) ← parseGal? qs ps rest
+      let (g3, rest) ← parseGal? qs ps rest
+      if !rest.isEmpty then none
+      some (showGalRes (galAggregate g1 g2 g3))
+  | "gal_aggtree" :: qs :: ps :: _n :: tree :: k :: rest => do
+      let qs ← parseVec? qs
+      let ps ← parseVec? ps
+      let tree ← parseTree? tree
+      let k ← k.toNat?
+      let (gs, rest) ← parseMany? (parseGal? qs ps) k rest
+      if !rest.isEmpty ∨ tree.leaves.any (· ≥ k) ∨ k = 0 then none
+      let d := gs.headD ⟨0, ⟨0, 0, 0, []⟩⟩
+      some (showGalRes (tree.evalM (fun x y => galAggregate x y ⟨0, zeroLike x.sh⟩) (fun i => gs.getD i d)))
+  | "gal_key" :: qs :: ps :: _n :: rest => do
+      let qs ← parseVec? qs
+      let ps ← parseVec? ps
+      let (sh, rest) ← parseGal? qs ps rest
+      match rest with
+      | crpShape :: crp :: rest =>
+        let crpShape ← parseVec? crpShape
+        let crp := unflatten crpShape (polysOf (msAt qs ps sh.sh.levelQ sh.sh.levelP) (← parseMat? crp))
+        let (gk, rest) ← parseGal? qs ps rest
+        if !rest.isEmpty then none
+        some (showGalRes (genGaloisKey sh crp gk))
+      | _ => none
+  | ["rkg_r1", qs, ps, n, b2, shape, crp, s, u, e0, e1] => do
+      let qs ← parseVec? qs
+      let ps ← parseVec? ps
+      let n ← n.toNat?
+      let b2 ← b2.toNat?
+      let ms := qs ++ ps
+      let shape ← parseVec? shape
+      let crp := unflatten shape (polysOf ms (← parseMat? crp))
+      let e0 := errPolys ms shape (← parseIMat? e0)
+      let e1 := errPolys ms shape (← parseIMat? e1)
+      let e := List.zipWith List.zip e0 e1
+      let w := gadgetWs qs ps n b2 shape
+      let out := allocShare ms n (qs.length - 1) ((ps.length : Int) - 1) b2 shape
+      some (showCube (rkgRoundOne (RPoly.ofInts ms (← parseIVec? s)) (RPoly.ofInts ms (← parseIVec? u)) crp w e out).val)
+  | ["rkg_r2", qs, ps, n, shape, r1, s, u, e2] => do
+      let qs ← parseVec? qs
+      let ps ← parseVec? ps
+      let n ← n.toNat?
+      let ms := qs ++ ps
+      let shape ← parseVec? shape
+      let r1v := unflatten shape (chunk 2 (polysOf ms (← parseMat? r1)))
+      let e2 := errPolys ms shape (← parseIMat? e2)
+      let out := allocShare ms n (qs.length - 1) ((ps.length : Int) - 1) 0 shape
+      let round1 : GShare RPoly := { out with val := r1v }
+      some (showCube (rkgRoundTwo (RPoly.ofInts ms (← parseIVec? s)) (RPoly.ofInts ms (← parseIVec? u)) round1 e2 out).val)
+  | ["rkg_key", qs, ps, _n, shape, r1, r2] => do
+      let qs ← parseVec? qs
+      let ps ← parseVec? ps
+      let ms := qs ++ ps
+      let shape ← parseVec? shape
+      let r1v := unflatten shape (chunk 2 (polysOf ms (← parseMat? r1)))
+      let r2v := unflatten shape (chunk 1 (polysOf ms (← parseMat? r2)))
+      let g1 : GShare RPoly := ⟨qs.length - 1, (ps.length : Int) - 1, 0, r1v⟩
+      let g2 : GShare RPoly := ⟨qs.length - 1, (ps.length : Int) - 1, 0, r2v⟩
+      some (showCube (genRelinKey g1 g2).val)
+  | _ => none
+
+def handle (toks : List String) : String := (handleOpt toks).getD badOp
 
 end Driver.C14
